@@ -181,6 +181,7 @@ pub fn render_ops(def: &WorldDef, ops: &[Op]) -> Vec<String> {
 
 /// Executes a concrete trace; returns (fails, event log hash).
 pub fn execute(def: &WorldDef, cfg: &Cfg, ops: &[Op], env: &mut Env) -> (Vec<Fail>, u64) {
+    heartbeat();
     env.reset();
     (def.replay)(cfg, ops, env);
     (env.fails.clone(), env.log.get())
